@@ -64,6 +64,7 @@ type Obligation struct {
 	Guards     []Guard                   `json:"guards"`
 	SingleSection []string               `json:"single_section"`
 	Clock      string                    `json:"clock"`
+	GhostFS    bool                      `json:"ghost_fs"`
 	guards     map[string]*Guard
 
 	pkgPath string
